@@ -3,7 +3,7 @@ import env  # noqa: F401
 import session
 from props import session_common as sc
 
-COQ_TARGETS = ['props/C13.vo']
+COQ_TARGETS = ['props/C13.vo', 'model/YSessionSx.vo']
 TRUSTED = sc.TRUSTED
 ASSUMPTIONS = sc.ASSUMPTIONS
 MSGS = ['open_ok', 'keepalive', 'update_ok', 'notif_cease', 'bad_marker']
